@@ -507,5 +507,5 @@ def run(prop, tier, seed, replay=None):
                         "(2 putters; putter + expiring getter; 2 putters + getter; inbound put datagram vs Server.Put)")
                      + "; every line validated by TLC against Bep44Store.tla / GetPut.tla"))
     rc = v.finish()
-    vlib.write_evidence(prop, tier, seed, cov, time.time() - t0, len(v.violations), assumptions=ASSUMPTIONS)
+    vlib.write_evidence(prop, tier, seed, cov, time.time() - t0, len(set(x["key"] for x in v.violations)), assumptions=ASSUMPTIONS)
     return rc
